@@ -118,7 +118,8 @@ def wrapper_contract(world, target, orig_path, params, pos_names, kw_names=(), l
         origs = [n for n in notes if n[0] == 'api' and n[1] == orig_path]
         d = {'delegates-exactly-once-to-the-original': z3.BoolVal(len(origs) == 1)}
         if len(origs) == 1:
-            _, _, args, kw, r = origs[0]
+            _, _, args, kw, r = origs[0][:5]
+            d['the-original-did-not-raise'] = z3.BoolVal(origs[0][5] is None)
             exp = []
             for p in pos_names:
                 v = c.vals[p]
@@ -136,14 +137,22 @@ def wrapper_contract(world, target, orig_path, params, pos_names, kw_names=(), l
                   and not n[1].split('()')[0].startswith(ALLOWED_PREFIXES)]
         d['no-other-operation-on-the-server'] = z3.BoolVal(len(others) == 0)
         return d
+    def propagated(c):
+        origs = [n for n in c.ctx.notes if n[0] == 'api' and n[1] == orig_path]
+        raised_by_orig = [n for n in origs if n[5] is not None]
+        d = {'everything-else-goes-to-the-admin-namespace-only': emits_only_to_admins(c, c.ctx.notes)}
+        if raised_by_orig:
+            d['the-originals-exception-reaches-the-caller-unchanged'] = z3.BoolVal(raised_by_orig[0][5] is c.exc)
+        return d
+
     loops = {0: LoopSpec(lambda lc: ({'admin-namespace-only': emits_only_to_admins(lc, lc.ctx.notes)} if lc.label == 'step' else {}),
                          mod_vars=[])} if loop else {}
     return Contract(
         target=target, schema=world, self_obj='adm', params=params,
         requires=lambda c: {'admin-namespace-is-not-none': c.pre.get('adm', 'admin_namespace').leaf() != NONE},
         cases=[Case('transparent', post=post),
-               Case('original-raises-or-unknown-client', kind='raise', exc='Exception', post=lambda c: {})],
-        loops=loops, modifies=[], props=['C18'])
+               Case('original-raises-or-unknown-client', kind='raise', exc='Exception', post=propagated)],
+        loops=loops, modifies=[], props=['C18'], env_hook=lambda eng, ctx: setattr(eng.ext, 'recorder_raises', {orig_path}))
 
 
 _reg_w = register
